@@ -8,8 +8,10 @@ import (
 	"sync"
 	"time"
 
+	"github.com/scrapli/scrapligo/channel"
 	"github.com/scrapli/scrapligo/driver/generic"
 	"github.com/scrapli/scrapligo/driver/network"
+	"github.com/scrapli/scrapligo/driver/opoptions"
 	"github.com/scrapli/scrapligo/driver/options"
 	"github.com/scrapli/scrapligo/logging"
 	"github.com/scrapli/scrapligo/platform"
@@ -161,6 +163,60 @@ func runC11case(cs c11case) (leaks []string, info string, nmsgs int, redactedWri
 			info += " cmd:" + errClass(e1)
 			closeQuietly(func() error { return d.Close() })
 		}
+	case "interactive-hidden-failed", "interactive-hidden-ok":
+		// driver-level SendInteractive with a hidden event; the device rejects the secret with a
+		// text that is one of the driver's failure strings (the response is marked failed)
+		sec, core := c11secret(r, "IH")
+		note(sec, core)
+		devSecret := sec
+		if cs.kind == "interactive-hidden-failed" {
+			devSecret = "another-" + sec
+		}
+		dev := sim.NewIOS("router", devSecret, true)
+		dev.Seg = seg
+		dev.WriteFault = fault
+		dev.Start()
+		events := []*channel.SendInteractiveEvent{
+			{ChannelInput: "enable", ChannelResponse: "(?im)^password:\\s?$", HideInput: false},
+			{ChannelInput: sec, ChannelResponse: "(?im)^router[>#]$", HideInput: true},
+		}
+		if r.Bool() {
+			d, err := generic.NewDriver("h", append(common, options.WithCustomTransport(dev), options.WithAuthBypass(),
+				options.WithFailedWhenContains([]string{"% Access denied", "% Invalid input"}))...)
+			if err != nil {
+				return nil, "driver: " + err.Error(), 0, 0
+			}
+			err = d.Open()
+			info = "generic open:" + errClass(err)
+			if err == nil {
+				rr, e1 := d.SendInteractive(events)
+				info += " inter:" + errClass(e1)
+				if rr != nil && rr.Failed != nil {
+					info += " failed"
+				}
+			}
+			closeQuietly(func() error { return d.Close() })
+		} else {
+			p, err := platform.NewPlatform("cisco_iosxe", "h", append(common, options.WithCustomTransport(dev), options.WithAuthBypass(),
+				options.WithDefaultDesiredPriv("exec"), options.WithFailedWhenContains([]string{"% Access denied", "% Invalid input"}))...)
+			if err != nil {
+				return nil, "platform: " + err.Error(), 0, 0
+			}
+			d, err := p.GetNetworkDriver()
+			if err != nil {
+				return nil, "driver: " + err.Error(), 0, 0
+			}
+			err = d.Open()
+			info = "network open:" + errClass(err)
+			if err == nil {
+				rr, e1 := d.SendInteractive(events, opoptions.WithPrivilegeLevel("exec"))
+				info += " inter:" + errClass(e1)
+				if rr != nil && rr.Failed != nil {
+					info += " failed"
+				}
+			}
+			closeQuietly(func() error { return d.Close() })
+		}
 	case "platform-redacted":
 		sec, core := c11secret(r, "OX")
 		note(sec, core)
@@ -237,7 +293,7 @@ func closeQuietly(f func() error) {
 func runC11(c *ctx) {
 	res := c.res
 	res.Rule = "sessions with a capturing logger (debug/info/critical) and a channel-log writer: platform cisco_iosxe on-open + escalation (device asks / does not ask / rejects), in-channel telnet and ssh logins (0-3 rejections, wrong password, key passphrase), platform on-open redacted write; secrets random around a unique core, decorated with format verbs, quotes and regex metacharacters. non-trivial = session in which at least one secret was actually transmitted redacted; distinct by seed"
-	kinds := []string{"escalate-ask", "escalate-ask", "escalate-noask", "escalate-reject", "telnet", "telnet", "ssh", "ssh-passphrase", "platform-redacted"}
+	kinds := []string{"escalate-ask", "escalate-ask", "escalate-noask", "escalate-reject", "telnet", "telnet", "ssh", "ssh-passphrase", "platform-redacted", "interactive-hidden-failed", "interactive-hidden-ok"}
 	var cases []c11case
 	if strings.HasPrefix(c.replay, "c11case") {
 		f := strings.Fields(c.replay)
@@ -249,7 +305,7 @@ func runC11(c *ctx) {
 		}
 		cases = []c11case{cs}
 	} else {
-		for i := 0; i < c.n(420, 9000); i++ {
+		for i := 0; i < c.n(520, 11000); i++ {
 			cs := c11case{seed: c.rng.U64(), kind: kinds[c.rng.Intn(len(kinds))], level: []string{"debug", "debug", "info", "critical"}[c.rng.Intn(4)]}
 			cs.rejects = []int{0, 0, 1, 2, 3, 9}[c.rng.Intn(6)]
 			cs.fault = []string{"", "", "", "wfail-secret", "eof-secret", "wfail-return"}[c.rng.Intn(6)]
